@@ -141,6 +141,15 @@ fn start_db(
     let tcp_address_to_election = Arc::new(tcp_address.to_string());
     let external_tcpaddress = Arc::new(external_tcpaddress.to_string());
     let join_thread = thread::spawn(move || {
+        // The replica set answers a join by connecting back at once: wait until the tcp thread
+        // spawned above is really listening, otherwise that connection is refused, the join is
+        // dropped and this node later elects itself a second primary
+        for _ in 0..500 {
+            match std::net::TcpStream::connect(tcp_address_to_election.as_str()) {
+                Ok(_) => break,
+                Err(_) => thread::sleep(std::time::Duration::from_millis(10)),
+            }
+        }
         nundb::replication_ops::ask_to_join_all_replicas(
             &replicate_address_to_thread,
             &tcp_address_to_election.to_string(),
